@@ -226,6 +226,23 @@ func buildBatchWorld(root string, days int) *batchWorld {
 		p5.Weather = e1Weather(0, []string{}, false)[:5] // 27 December .. 31 December
 		p5.Write(root)
 	}
+	// p6: multi-year weather file from which the whole second calendar year is absent (the records go on in the third year)
+	{
+		b6 := e1Base{Soil: "loam12", GW: 99, InitW: 0.6, InitN: 30, ET: 3, Start: "2001-12-30"}
+		p6 := e1Project(b6, days+4)
+		p6.ID, p6.FCode = "p6", "Y6"
+		p6.Config["ManagementEvents"] = "1"
+		p6.Weather = e1Weather(0, []string{}, false)[:5] // 27 December .. 31 December 2001
+		p6.Write(root)
+		wf := filepath.Join(root, "weather", "w", "Y6.csv")
+		if txt, err := os.ReadFile(wf); err == nil {
+			var extra strings.Builder
+			for i := 0; i < 40; i++ {
+				extra.WriteString(proj.D("2003-01-01").AddDate(0, 0, i).Format("2006-01-02") + ",6,10,14,1,10,2.5,75\n")
+			}
+			os.WriteFile(wf, append(txt, []byte(extra.String())...), 0o644)
+		}
+	}
 	// a weather station whose file has minimum and maximum temperature exchanged on 8 days of the period (the reader puts
 	// them right and says so), selected with fcode=WB
 	if wtxt, err := os.ReadFile(filepath.Join(root, "weather", "w", "W.csv")); err == nil {
@@ -294,6 +311,7 @@ func buildBatchWorld(root string, days int) *batchWorld {
 		"Fgap":   "project=p2 plotNr=1 fcode=WG parameter=par poligonID=L",
 		"Fargs":  "plotNr=1 fcode=W",
 		"Fgap0":  "project=p5 plotNr=1 fcode=Y5 parameter=par poligonID=R",
+		"Fgapy":  "project=p6 plotNr=1 fcode=Y6 parameter=par poligonID=R6",
 		// start year after the last year of the weather series (no year of the series is loaded at all)
 		"Flate": "project=p2 plotNr=1 fcode=W parameter=par poligonID=N StartYear=2005",
 	}}
